@@ -15,7 +15,7 @@ EXTENDS Naturals, Sequences
 
 PromptMs == 10000      \* "promptly": generous wall-clock bound (typical: < 200 ms)
 
-ExecFails == {"noent", "noentabs", "noexec", "enoexec", "dir", "emptyargs"}   \* request/program caused
+ExecFails == {"noent", "noentabs", "noexec", "enoexec", "dir", "emptyargs", "hugearg"}   \* request/program caused
 ExecRuns  == {"run", "runslow", "sleep", "term"}
 
 Genuine(op, a) ==
@@ -40,6 +40,7 @@ Allowed(op, a) ==
        [] op.k = "open"  -> CASE op.v = "ok"    -> a.r = "ok" /\ a.detail = "."
                               [] op.v = "bad"   -> a.r = "ok" /\ a.detail = "E"
                               [] op.v = "mixed" -> a.r = "ok" /\ a.detail = ".E."
+                              [] op.v = "longbatch" -> CallErr(a) \/ (a.r = "ok" /\ a.detail # "")   \* per-item errors or one error
                               [] OTHER          -> CallErr(a)          \* empty batch
        [] op.k = "delete" -> IF op.v = "ok" THEN a.r = "ok" ELSE CallErr(a)
        [] op.k = "symlink" -> CASE op.v = "ok"  -> a.r = "ok" /\ a.detail = "."
